@@ -109,6 +109,8 @@ type PathResult struct {
 	Terms        int
 	Pending      [][]Dec
 	CacheHits    int
+	Merged       int
+	MergeAborts  int
 	CrossN       int
 	Known        map[string]*Violation
 	SampleInputs map[string]interface{}
@@ -157,6 +159,8 @@ type Summary struct {
 	MaxDepth     int
 	Steps        int64
 	CacheHits    int
+	Merged       int
+	MergeAborts  int
 	CrossN       int
 	CrossStats   smt.Stats
 	Known        map[string]*Violation
@@ -267,6 +271,8 @@ func (p *Program) Explore(fn *ssa.Function, opts ExploreOpts) *Summary {
 			sum.Paths++
 			sum.Steps += res.Steps
 			sum.CacheHits += res.CacheHits
+			sum.Merged += res.Merged
+			sum.MergeAborts += res.MergeAborts
 			sum.CrossN += res.CrossN
 			for _, rr := range res.Races {
 				sum.Races[rr.SiteA+" | "+rr.SiteB] = rr
@@ -361,7 +367,8 @@ func (p *Program) RunPath(fn *ssa.Function, prefix []Dec, solver *smt.Solver, op
 		globals: map[*ssa.Global]*Value{}, mutexW: map[*Value][]*G{}, wgCount: map[*Value]int64{}, wgW: map[*Value][]*G{},
 		mapOrderSym: map[string]bool{}, Env: NewWorld(), Funcs: map[*ssa.Function]bool{},
 		userData: map[string]Value{}, extTypeTab: map[string]types.Type{}, Fixed: opts.Fixed, onPending: onPending,
-		knownW: map[string]*Violation{}, decided: map[*sym.Term]bool{}, traceChans: map[*Chan]bool{}, traceMutex: map[*Value]bool{}, mutexNames: map[*Value]string{}, CrossKind: opts.CrossSolver, CrossStats: crossStats,
+		NoMerge: os.Getenv("VERIF_NOMERGE") != "",
+		knownW: map[string]*Violation{}, decided: map[*sym.Term]bool{}, builders: map[*Value]Value{}, traceChans: map[*Chan]bool{}, traceMutex: map[*Value]bool{}, mutexNames: map[*Value]string{}, CrossKind: opts.CrossSolver, CrossStats: crossStats,
 	}
 	res = &PathResult{Prefix: prefix}
 	for k, v := range opts.Params {
@@ -431,6 +438,7 @@ func (p *Program) RunPath(fn *ssa.Function, prefix []Dec, solver *smt.Solver, op
 	res.Terms = m.C.NumTerms()
 	res.Pending = m.pending
 	res.CacheHits = m.CacheHits
+	res.Merged, res.MergeAborts = m.Merged, m.MergeAborts
 	res.Inputs = len(m.inputs)
 	for f := range m.Funcs {
 		res.Funcs = append(res.Funcs, f)
